@@ -58,6 +58,14 @@ fn read_message(stream: &mut UnixStream, buf: &mut Vec<u8>) -> std::io::Result<S
     String::from_utf8(line).map_err(|e| std::io::Error::new(std::io::ErrorKind::InvalidData, e))
 }
 
+/// A reply line is the command word alone or the word followed by a space and its arguments: "OKAY" is not "OK"
+fn is_command(line: &str, command: &str) -> bool {
+    match line.strip_prefix(command) {
+        Some(rest) => rest.is_empty() || rest.starts_with(' '),
+        None => false,
+    }
+}
+
 fn get_uid_as_hex() -> String {
     let uid = getuid();
     let mut tmp = uid.as_raw();
@@ -114,7 +122,7 @@ pub fn do_auth(stream: &mut UnixStream) -> std::io::Result<AuthResult> {
 
     let mut read_buf = Vec::new();
     let msg = read_message(stream, &mut read_buf)?;
-    if msg.starts_with("OK") {
+    if is_command(&msg, "OK") {
         Ok(AuthResult::Ok)
     } else {
         Ok(AuthResult::Rejected)
@@ -126,7 +134,7 @@ pub fn negotiate_unix_fds(stream: &mut UnixStream) -> std::io::Result<AuthResult
 
     let mut read_buf = Vec::new();
     let msg = read_message(stream, &mut read_buf)?;
-    if msg.starts_with("AGREE_UNIX_FD") {
+    if is_command(&msg, "AGREE_UNIX_FD") {
         Ok(AuthResult::Ok)
     } else {
         Ok(AuthResult::Rejected)
